@@ -61,7 +61,7 @@ CLAIMED = {
             "Trusts to_internal_repr validation; sampler numerics are out of scope.",
             "DESIGN.md §3 C10"),
     "C02": ("abstract interpretation over the CFG with typed exceptional edges: path-sensitive exploration of (node, structural value environment, stored flag, in-flight exception) with callee inlining and outcome summaries; sanitiser meaning proved by per-iteration dominance",
-            "From the statement after `trial = study.ask()` every exit of _run_trial (return or any propagating exception) is preceded by <storage>.set_trial_state_values, under an explicit raise model (objective / after_trial / callbacks raise anything; float, int, math.isnan, len, arithmetic, comparison, subscript on values derived from the objective's return value raise their exception classes; trusted internals do not); the feasibility check is total and its None result means every element went through float(), the NaN test and the count test; for all 48 combinations of tell() arguments only (COMPLETE, validated floats), (FAIL, None), (PRUNED, None | validated float) reach the store and a normal return always follows a store; tell stores only for RUNNING trials; non-caught exceptions are re-raised after the store; loop accounting of _optimize_sequential and the n_jobs branch. Exhaustive over abstract states (~640). Decides the finalisation-path obligation; not numeric equality of stored floats or exotic Sequence subclasses.",
+            "From the statement after `trial = study.ask()` every exit of _run_trial (return or any propagating exception) is preceded by <storage>.set_trial_state_values, under an explicit raise model (objective / after_trial / callbacks raise anything; float, int, math.isnan, len, arithmetic, comparison, subscript on values derived from the objective's return value raise their exception classes; trusted internals do not); the feasibility check is total and its None result means every element went through float(), the NaN test and the count test; for all 48 combinations of tell() arguments only (COMPLETE, validated floats), (FAIL, None), (PRUNED, None | validated float) reach the store and a normal return always follows a store; tell stores only for RUNNING trials; non-caught exceptions are re-raised after the store; loop accounting of _optimize_sequential and the n_jobs branch. Exhaustive over abstract states (~640). Study.ask fails a trial that already exists when the sampler hooks raise; with n_jobs > 1 the result of every submitted future is taken; callbacks run for every trial whose run returned normally. Decides the finalisation-path obligation; not numeric equality of stored floats or exotic Sequence subclasses.",
             "Raise model and total-by-assumption operations are listed in evidence; storage calls are assumed not to raise; a trial found not RUNNING after ask() is assumed already finished.",
             "DESIGN.md §3 C02"),
     "C01": ("sibling/interface tables over the five backends, guard dominance on CFGs, finite-domain CAS and timestamp exploration, must/may key-set dataflow for journal records, container-insert/remove census, docstring-vs-handler status-code tables, proto container taint with sanitisers",
@@ -112,7 +112,7 @@ def main():
             "enable": "none: the checks are static analyses of /repo's source; no instrumentation is compiled in and no source commit uses the guard",
             "baseline_off_cmd": "cd /repo && /venv/bin/python -m pytest -ra -q -p no:cacheprovider --timeout=900 --continue-on-collection-errors --junitxml=/tmp/optuna_baseline.junit.xml",
             "source_commits": [],
-            "fix_commits": ["899865b", "bf20abd", "1904569", "255ec62", "eeba606", "b748d1a", "f27ae56", "503aa71", "b3b6513", "cbd503d", "5750c37", "749e06e", "f399ea2", "f103614"],
+            "fix_commits": ["899865b", "bf20abd", "1904569", "255ec62", "eeba606", "b748d1a", "f27ae56", "503aa71", "b3b6513", "cbd503d", "5750c37", "749e06e", "f399ea2", "f103614", "939c19e"],
             "add_only": True,
         },
         "engines": [{
